@@ -13,6 +13,12 @@
   psychrometric charts, CSV/PKL files.
 -/
 import Ladybug.Model.Serial.Coll
+import Ladybug.Proofs.C07Loc
+import Ladybug.Proofs.C07Basic
+import Ladybug.Proofs.C07Legend
+import Ladybug.Proofs.C07DesignDay
+import Ladybug.Proofs.C07Wea
+import Ladybug.Proofs.C07Csv
 import Ladybug.Props.C08
 
 namespace Codec
@@ -98,37 +104,6 @@ theorem C07_Time : Law Tc.enc Tc.rd.dec (fun t => t.valid) := by
 
 /-! ### AnalysisPeriod -/
 
-theorem make_hour0 (m d h : Nat) (leap : Bool) (hv : (DT.mk m d h 0 leap).valid) :
-    DT.make m d h 0 leap = .ok ⟨m, d, h, 0, leap⟩ := make_of_valid ⟨m, d, h, 0, leap⟩ hv
-
-theorem orD_pos (n d : Nat) (h : 1 ≤ n) : orD (some n) d = n := by
-  cases n with
-  | zero => omega
-  | succ k => rfl
-
-/-- The constructor applied to the fields of a well-formed period rebuilds it (constructor
-    idempotence): no `or`-default fires, no end-day clipping, both DateTimes are accepted. -/
-theorem AP.make_of_wf (a : AP) (h : a.wf) :
-    AP.make (some a.stM) (some a.stD) (some a.stH) (some a.endM) (some a.endD) (some a.endH)
-      (some a.ts) a.leap = some a := by
-  obtain ⟨hs, he, ht⟩ := h
-  have hs' := hs
-  have he' := he
-  simp only [DT.valid] at hs' he'
-  have e1 := orD_pos a.stM 1 hs'.1
-  have e2 := orD_pos a.stD 1 hs'.2.2.1
-  have e4 := orD_pos a.endM 12 he'.1
-  have e5 := orD_pos a.endD 31 he'.2.2.1
-  have e7 : orD (some a.ts) 1 = a.ts := by
-    apply orD_pos
-    simp only [validTimesteps, List.mem_cons, List.not_mem_nil, or_false] at ht
-    omega
-  have e3 : orD (some a.stH) 0 = a.stH := by cases h3 : a.stH <;> rfl
-  have hclip : ¬ (monthLen a.leap a.endM < a.endD) := by omega
-  have h12 : ¬ (12 < a.endM) := by omega
-  simp only [AP.make, e1, e2, e3, e4, e5, e7, make_hour0 _ _ _ _ hs, make_hour0 _ _ _ _ he, okOpt,
-    hclip, h12, ht, if_true, if_false, Option.bind_eq_bind, Option.bind_some]
-
 /-- AnalysisPeriod: dictionary → JSON → `from_dict` gives the period back, for every period in
     the constructor's normal form (any months/days/hours incl. reversed and overnight periods,
     all 12 timesteps, both leap flags). -/
@@ -169,54 +144,10 @@ example : (Col.mk 0 255 7 255).wf := by decide
 
 /-! ### Location -/
 
-theorem locArg_str (s : String) : locArg (some (.str s)) = .str s := by simp [locArg, PyVal.isTag]
-theorem locArg_num (n : Num) : locArg (some n.enc) = n.enc := by
-  cases n <;> simp [locArg, PyVal.isTag, Num.enc]
-theorem locArg_optStr (o : Option String) : locArg (some (optStr o)) = optStr o := by
-  cases o <;> simp [locArg, PyVal.isTag, optStr]
-
-theorem dashStr_str (s : String) (h : s ≠ "") : dashStr (.str s) = some s := by
-  simp [dashStr, PyVal.truthy, h]
-
-theorem angle_wf (n : Num) (lo hi : Int)
-    (h : n = .int 0 ∨ ∃ b, n = .flt b ∧ n.truthy = true ∧ n.inRange lo hi = true) :
-    angle n.enc lo hi = some n := by
-  rcases h with rfl | ⟨b, rfl, ht, hr⟩
-  · simp [angle, Num.enc, PyVal.truthy]
-  · simp only [Num.truthy, Num.enc] at ht
-    simp [angle, Num.enc, ht, PyVal.num?, Num.toFloat, hr]
-
 /-- Location (time zone given, i.e. a float after `float(tz)`): dictionary → JSON → `from_dict`
     gives the location back.  Covers the constructor's normal forms: `'-'` for missing names,
     integer 0 for a falsy latitude/longitude, float elevation, `None` station id. -/
-theorem C07_Location : Law Loc.enc Loc.rd.dec Loc.wf := by
-  intro l h
-  rcases l with ⟨city, state, country, lat, lon, tz, elev, sid, source⟩
-  obtain ⟨hc, hs, hco, hlat, hlon, ⟨tb, htz, htzr⟩, ⟨eb, hel, hel2⟩, hsid, hsrc, hsrc2⟩ := h
-  simp only at hc hs hco hlat hlon htz htzr hel hel2 hsid hsrc hsrc2
-  subst htz hel
-  have a1 := angle_wf lat (-90) 90 hlat
-  have a2 := angle_wf lon (-180) 180 hlon
-  have t1 : tzOf (Num.flt tb).enc lon = some (.flt tb) := by
-    simp [tzOf, Num.enc, PyVal.num?, Num.toFloat, htzr]
-  have e1 : elevOf (Num.flt eb).enc = some (.flt eb) := by
-    rcases hel2 with ht | rfl
-    · simp only [Num.truthy, Num.enc] at ht
-      simp [elevOf, Num.enc, ht, PyVal.num?, Num.toFloat]
-    · simp [elevOf, Num.enc, PyVal.truthy]
-  have s1 : sidOf (optStr sid) = some sid := by
-    cases sid with
-    | none => simp [sidOf, optStr, PyVal.truthy]
-    | some s =>
-      have : s ≠ "" := hsid s rfl
-      simp [sidOf, optStr, PyVal.truthy, this, dashStr]
-  have src : locArg (some (jsonRT source)) = source := by
-    rw [hsrc]; simp [locArg, hsrc2]
-  simp only [Loc.enc, Loc.rd, RecDec.dec, PyVal.env?, jsonRT_dict, kv, Loc.run, List.map,
-    keyStr_str, jsonRT_str, jsonRT_num, lookupKV_cons_str]
-  have jo : jsonRT (optStr sid) = optStr sid := by cases sid <;> simp [optStr]
-  simp [jo, locArg_str, locArg_num, locArg_optStr, src, Loc.make, dashStr_str, hc, hs, hco, a1, a2,
-    t1, e1, s1]
+theorem C07_Location : Law Loc.enc Loc.rd.dec Loc.wf := Loc.law
 
 /-- A location whose time zone was left to the constructor carries the *integer*
     `round(longitude / 15)`; the reader applies `float()` to it.  The read-back object holds the
@@ -224,15 +155,7 @@ theorem C07_Location : Law Loc.enc Loc.rd.dec Loc.wf := by
     opaque bit patterns), every other field is unchanged. -/
 theorem C07_Location_autotz_partial (l : Loc) (i : Int)
     (h : Loc.wf { l with tz := .flt (floatBitsOfInt i) }) (hl : l.tz = .int i) :
-    Loc.rd.dec (jsonRT l.enc) = some { l with tz := .flt (floatBitsOfInt i) } := by
-  have := C07_Location _ h
-  rcases l with ⟨city, state, country, lat, lon, tz, elev, sid, source⟩
-  simp only at hl
-  subst hl
-  simp only [Loc.enc, Loc.rd, RecDec.dec, PyVal.env?, jsonRT_dict, kv, Loc.run, List.map,
-    keyStr_str, jsonRT_str, jsonRT_num, lookupKV_cons_str, Num.enc] at this ⊢
-  simp only [locArg, PyVal.isTag, Loc.make, tzOf, PyVal.num?, Num.toFloat, Option.map] at this ⊢
-  exact this
+    Loc.rd.dec (jsonRT l.enc) = some { l with tz := .flt (floatBitsOfInt i) } := Loc.law_autotz l i h hl
 
 example : Loc.wf ⟨"Boston", "-", "USA", .flt 0x40452F5C28F5C28F, .int 0, .flt 0xC014000000000000,
     .flt 0, none, .str "TMY3"⟩ := by
@@ -314,12 +237,6 @@ theorem C07_Header : Law Hdr.enc Hdr.rd.dec Hdr.wf := by
     PyVal.str?]
 
 /-! ### Data collections -/
-
-theorem dtOfArray_roundtrip (d : DT) (hv : d.valid) : dtOfArray (jsonRT (dtArray d)) = some d := by
-  have h := C08_array_roundtrip d hv
-  have hl : decList PyVal.nat? (d.toArray.map natV) = some d.toArray :=
-    decList_map _ _ _ (fun a _ => nat?_natV a)
-  simp [dtOfArray, dtArray, PyVal.list?, List.map_map, Function.comp_def, hl, h, okOpt]
 
 theorem toTuple_jsonRT (v : PyVal) (h : ∃ t, v = .tuple t ∧ ∀ x ∈ t, jsonRT x = x) :
     toTuple (jsonRT v) = some v := by
@@ -403,5 +320,147 @@ example : Coll.wf ⟨.mph, ⟨.std "Temperature" none, "C", ⟨1, 1, 0, 12, 31, 
   · simp [jsonRT_dict]
   · simp
   · simp
+
+/-! ## Round 2: colour ranges, legends, design days, DDY, Wea, text forms -/
+
+/-! ### ColorRange, LegendParameters, LegendParametersCategorized, Legend -/
+
+/-- ColorRange: colours, domain stops and the continuous flag come back, for every range whose
+    domain was given as floats in order and fits the colour count.  The reader re-maps a 2-stop
+    domain of a continuous range by float arithmetic (`lo + c * (hi - lo) / (n - 1)`); for a range
+    with exactly two colours this touches the written stops again, and the law needs – as an
+    explicit clause of `CRange.wf` – that this re-mapping reproduces them (IEEE arithmetic is
+    opaque here; the written stops are themselves the output of the same re-mapping, and no
+    random pair was found on which the real arithmetic is not idempotent). -/
+theorem C07_ColorRange : Law CRange.enc CRange.rd.dec CRange.wf := CRange.law
+
+example : CRange.wf ⟨[⟨0, 0, 0, 255⟩, ⟨9, 9, 9, 255⟩, ⟨255, 0, 0, 7⟩],
+    [.flt 0, .flt 0x3FE0000000000000, .flt 0x3FF0000000000000], true⟩ := by
+  refine ⟨by simp, by decide, by simp, by simp, ?_, ?_⟩
+  · exact ⟨by decide +kernel, by decide +kernel, trivial⟩
+  · simp
+
+/-- LegendParameters (default 3D / 2D properties): every optional key the writer omits (min, max,
+    segment count, colours, title, user data) is the reader's default, the integer keys of the
+    ordinal dictionary – text after JSON – are turned back into integers. -/
+theorem C07_LegendParameters : Law LP.enc LP.rd.dec LP.wf := LP.law
+
+example : LP.wf ⟨some (.int 0), some (.flt 0x4024000000000000), some 7, Option.none, some "C", true,
+    some [(-1, .str "Cold"), (0, .str "Neutral"), (1, .str "Hot")], 1, false, false, "Arial",
+    Option.none⟩ := by
+  refine ⟨by decide +kernel, by simp, by simp, ?_, ?_, by simp⟩
+  · intro o ho q hq
+    cases ho
+    simp only [List.mem_cons, List.not_mem_nil, or_false] at hq
+    rcases hq with rfl | rfl | rfl <;> simp
+  · exact ordinal_notTag_of_length _ (by decide)
+
+/-- LegendParametersCategorized with explicit category names (whatever text `gen` the writer
+    would generate otherwise). -/
+theorem C07_LegendParametersCategorized (gen : LPC → List String) :
+    Law (LPC.enc gen) LPC.rd.dec LPC.wf := LPC.law gen
+
+/-- Categorized parameters created *without* category names do not read back equal: the writer
+    emits the generated names, the reader stores them as explicit names, and `__eq__` compares
+    `_category_names` (None before, a tuple after).  Finding C07-legend-categorized-default-names. -/
+theorem C07_LegendParametersCategorized_default_names_counterexample (gen : LPC → List String)
+    (p : LPC) (h : p.wfBase) (hn : p.names = Option.none) (hg : (gen p).length = p.domain.length + 1) :
+    LPC.rd.dec (jsonRT (LPC.enc gen p)) = some { p with names := some (gen p) } ∧
+    ({ p with names := some (gen p) } : LPC).names ≠ p.names := by
+  refine ⟨LPC.default_names gen p h hn hg, ?_⟩
+  simp [hn]
+
+example : LPC.wfBase ⟨[.flt 0], [⟨0, 0, 0, 255⟩, ⟨9, 9, 9, 255⟩], Option.none, Option.none, false, false,
+    2, true, true, "Arial", Option.none⟩ := by
+  refine ⟨by simp, by simp, trivial, rfl, by decide, by simp⟩
+
+/-- Legend with plain parameters: the values, the parameters (which a constructed legend always
+    holds with both bounds filled in) and the two `is_*_default` flags come back. -/
+theorem C07_Legend : Law Leg.enc Leg.rd.dec Leg.wf := Leg.law
+
+/-! ### design days -/
+
+theorem C07_DryBulbCondition : Law DryBulb.enc DryBulb.rd.dec DryBulb.wf := DryBulb.law
+theorem C07_HumidityCondition : Law Humidity.enc Humidity.rd.dec Humidity.wf := Humidity.law
+theorem C07_WindCondition : Law Wind.enc Wind.rd.dec Wind.wf := Wind.law
+/-- The three sky conditions, read through `_SkyCondition.from_dict`'s dispatch on `type`;
+    leap-year dates (29 Feb) included. -/
+theorem C07_SkyCondition : Law Sky.enc Sky.rd.dec Sky.wf := Sky.law
+/-- DesignDay = name, day type, location and the four conditions: composition of their laws. -/
+theorem C07_DesignDay : Law DDay.enc DDay.rd.dec DDay.wf := DDay.law
+/-- DDY = a location and any number of design days that carry this location (list lift). -/
+theorem C07_DDY : Law DDYc.enc DDYc.rd.dec DDYc.wf := DDYc.law
+
+example : DryBulb.wf ⟨.flt 0x4041800000000000, .int 10, "MultiplierSchedule", "Sched 1"⟩ := by
+  show Num.geRat (.int 10) 0 = true
+  decide +kernel
+example : Sky.wf (.clear ⟨2, 29, true⟩ (.int 1) true) := by
+  refine ⟨by decide, by decide +kernel⟩
+example : Wind.wf ⟨.flt 0x400C000000000000, .int 360⟩ := by
+  show (Num.geRat (.int 360) 0 && Num.leRat (.int 360) 360) = true
+  decide +kernel
+
+/-! ### Wea -/
+
+/-- An annual Wea: composition of the Location law with the analysis-period constructor. -/
+theorem C07_Wea_annual : Law WeaC.enc WeaC.rd.dec WeaC.wfAnnual := WeaC.law_annual
+
+/-- A Wea with discontinuous collections whose period is spanned by its datetimes (what
+    `filter_by_analysis_period` with a part-of-day window gives): everything comes back except
+    the collections' `validated_a_period`, which `from_dict` always leaves False. -/
+theorem C07_Wea_discontinuous_partial (w : WeaC) (h : w.wfDisc) :
+    WeaC.rd.dec (jsonRT w.enc) = some { w with validated := false } := WeaC.read_disc w h
+
+/-- … so a filtered Wea (`validated_a_period` True) does not read back equal.
+    Finding C07-wea-discontinuous-validated-flag. -/
+theorem C07_Wea_discontinuous_counterexample (w : WeaC) (h : w.wfDisc) (hv : w.validated = true) :
+    WeaC.rd.dec (jsonRT w.enc) ≠ some w := by
+  rw [WeaC.read_disc w h]
+  intro e
+  have := congrArg WeaC.validated (Option.some.inj e)
+  simp [hv] at this
+
+/-! ### text forms -/
+
+/-- CSV header strings, token level: a header with a default-named standard data type and text
+    metadata reads back from its CSV strings in both layouts (one cell per entry / one joined
+    row), *given* the character-level facts `SplitsBack md` (splitting the joined row at `' | '`
+    and each item at `': '` gives the pieces back).  That hypothesis is the guard "no `' | '`,
+    `': '` (nor `','` in files) inside metadata text"; it is compared with the code by the
+    correspondence ops `split` / `hdr_csv`, not proved from a condition on the characters. -/
+theorem C07_HeaderCsv_partial (num : Option Num → String) (descr : Option (List (Key × PyVal)) → String)
+    (perRow : Bool) (cls unit : String) (md : List (String × String))
+    (hc : Gen.DataTypes.names.contains cls = true) (ht : titleKey (spaced cls) = cls)
+    (hs : SplitsBack md) :
+    CsvHdr.read (CsvHdr.write num descr perRow ⟨.std cls Option.none, unit, md⟩) =
+      some ⟨.std cls Option.none, unit, md⟩ := CsvHdr.law num descr perRow cls unit md hc ht hs
+
+/-- The guard is satisfiable (evaluated at character level). -/
+example : SplitsBack [("city", "Boston"), ("Zone", "LIVING ROOM")] :=
+  ⟨fun _ => by decide +kernel, by decide +kernel, by decide +kernel, by decide +kernel⟩
+
+/-- Outside the guard the CSV strings do not read back: a value containing `' | '` is cut in two
+    and the second piece has no `': '` (IndexError in the code); a value containing `': '` is
+    truncated.  Finding C07-csv-metadata-separators. -/
+theorem C07_HeaderCsv_separator_counterexample :
+    readCells (metaCells false [("b", "p | q")]) = Option.none ∧
+    readCells (metaCells true [("k", "v: w")]) = some [("k", "v")] := by
+  refine ⟨by decide +kernel, by decide +kernel⟩
+
+/-- The text form of a *generic* data type never reads back (`GenericType.from_string` hands the
+    eight `' | '`-separated fields to the constructor as text, which rejects text for `min`);
+    hence neither do the CSV strings of a header or collection with a generic data type.
+    Finding C07-generic-type-text-form. -/
+theorem C07_GenericType_string_counterexample (num : Option Num → String)
+    (descr : Option (List (Key × PyVal)) → String) (name unit : String) (mn mx : Option Num)
+    (abbr : String) (ud : Option (List (Key × PyVal))) (pit cum : Bool) :
+    DType.ofParts ((DType.generic name unit mn mx abbr ud pit cum).textParts num descr) = Option.none :=
+  generic_text_rejected num descr name unit mn mx abbr ud pit cum
+
+/-- A default-named standard data type reads back from its text (its name). -/
+theorem C07_DataType_string (num : Option Num → String) (descr : Option (List (Key × PyVal)) → String)
+    (cls : String) (hc : Gen.DataTypes.names.contains cls = true) (ht : titleKey (spaced cls) = cls) :
+    DType.ofParts ((DType.std cls Option.none).textParts num descr) = some (.std cls Option.none) :=
+  std_text_roundtrip num descr cls hc ht
 
 end Codec
